@@ -13,7 +13,8 @@ import (
 // property / array item / definition / allOf-anyOf branch position, at depth 1..2.
 func hostileMembers(cfg gen.Config) []member {
 	var out []member
-	kinds := []string{"null-property", "null-allOf", "null-anyOf", "null-anyOf-untyped", "null-allOf-untyped", "null-definition", "empty-enum", "nonprimitive-enum", "unknown-type", "missing-definition", "bad-pointer", "empty-definition-name"}
+	kinds := []string{"null-property", "null-allOf", "null-anyOf", "null-anyOf-untyped", "null-allOf-untyped", "null-definition", "empty-enum", "nonprimitive-enum", "unknown-type", "missing-definition", "bad-pointer", "empty-definition-name",
+		"unknown-type-enum", "unknown-type-int-enum"}
 	for _, k := range kinds {
 		bad := func() *fam.Spec {
 			switch k {
@@ -21,6 +22,10 @@ func hostileMembers(cfg gen.Config) []member {
 				return &fam.Spec{Kind: "object", Hostile: k, Props: []*fam.Prop{{Label: "ok", Spec: &fam.Spec{Kind: "string"}}}}
 			case "empty-enum", "nonprimitive-enum":
 				return &fam.Spec{Kind: "string", Hostile: k}
+			case "unknown-type-enum":
+				return &fam.Spec{Kind: "string", Enum: "strings", Hostile: k}
+			case "unknown-type-int-enum":
+				return &fam.Spec{Kind: "integer", Enum: "ints", Hostile: k}
 			default:
 				return &fam.Spec{Kind: "string", Hostile: k}
 			}
@@ -53,7 +58,7 @@ func hostileMembers(cfg gen.Config) []member {
 		out = append(out, member{name: k + " as a property next to anyOf in a definition", cfg: cfg, root: &fam.Spec{Kind: "object", Props: []*fam.Prop{{Label: "r", Spec: dn}}}})
 		// ... as a branch ITSELF (not inside a branch's properties), next to a primitive branch
 		switch k {
-		case "empty-enum", "nonprimitive-enum", "unknown-type", "missing-definition", "bad-pointer", "empty-definition-name":
+		case "empty-enum", "nonprimitive-enum", "unknown-type", "missing-definition", "bad-pointer", "empty-definition-name", "unknown-type-enum", "unknown-type-int-enum":
 			out = append(out, member{name: k + " as an anyOf branch itself", cfg: cfg, root: &fam.Spec{Kind: "object", Props: []*fam.Prop{{Label: "u", Spec: &fam.Spec{Kind: "any", AnyOf: []*fam.Spec{bad(), {Kind: "integer"}}}}}}})
 			out = append(out, member{name: k + " as an allOf branch itself", cfg: cfg, root: &fam.Spec{Kind: "object", Props: []*fam.Prop{{Label: "u", Spec: &fam.Spec{Kind: "any", AllOf: []*fam.Spec{bad(), {Kind: "string", NoType: true, Kw: []string{"maxLength"}}}}}}}})
 			dd := &fam.Spec{Kind: "object", Ref: "$defs", Props: []*fam.Prop{{Label: "xs", Spec: &fam.Spec{Kind: "array", Items: &fam.Spec{Kind: "any", AnyOf: []*fam.Spec{{Kind: "integer"}, bad()}}}}}}
